@@ -499,7 +499,7 @@ Definition c05_ids : list N := [1; 2; 3; 4; 5; 6].
    before, id the implementation hands over); oh: holders observed after the call; oc / od:
    counts of objects 1..6 observed when the call has returned / after the caller dropped all;
    l0: their counts before the call (objects leaked by earlier calls stay alive).
-   -> [holders agree; counts after call agree; counts after drop agree; #aliased positions;
+   -> [holders agree; counts after call agree; counts after drop agree; #positions that leak;
        hypotheses of the theorems hold] *)
 Definition ledger_of (l : list Z) : ledger := fun y => nth (N.to_nat (y - 1)) l 0%Z.
 Definition chk_c05 (b1 b2 : N) (l0 ins : list Z) (po : list (Z * Z)) (ok : bool) (oh oc od : list Z) : list N :=
@@ -512,7 +512,7 @@ Definition chk_c05 (b1 b2 : N) (l0 ins : list Z) (po : list (Z * Z)) (ok : bool)
   [ b2n (list_eqb opt_eqb (fst r) (map opt_of oh));
     b2n (list_eqb Z.eqb (map (snd r) c05_ids) oc);
     b2n (list_eqb Z.eqb (map Ld c05_ids) od);
-    N.of_nat (List.length (filter (fun o => match o with Some _ => true | None => false end) (aliased (sc_outs s))));
+    N.of_nat (List.length (filter (fun o => match o with Some _ => true | None => false end) (leaked consume_leaks (sc_outs s))));
     b2n (holders_only_cpp B1 s) ].
 
 (* object paths of a struct type as the emitters enumerate them: distinct? (K_dup_path) *)
